@@ -178,7 +178,12 @@ _dispatch_qos_from_queue_priority(intptr_t priority)
 	case DISPATCH_QUEUE_PRIORITY_LOW:             return DISPATCH_QOS_UTILITY;
 	case DISPATCH_QUEUE_PRIORITY_DEFAULT:         return DISPATCH_QOS_DEFAULT;
 	case DISPATCH_QUEUE_PRIORITY_HIGH:            return DISPATCH_QOS_USER_INITIATED;
-	default: return _dispatch_qos_from_qos_class((qos_class_t)priority);
+	default:
+		if (unlikely(priority != (intptr_t)(qos_class_t)priority)) {
+			// not representable as a qos_class_t: not a valid identifier
+			return DISPATCH_QOS_UNSPECIFIED;
+		}
+		return _dispatch_qos_from_qos_class((qos_class_t)priority);
 	}
 }
 
